@@ -423,7 +423,7 @@ class C04(C.Check):
         for c in ctx.corpus():
             if c.get("kind") == "case":
                 cases.append({"tree": B.tuple_tree(c["tree"]), "x": c["x"], "n": c["n"], "K": c["K"]})
-        nex, nen = (25, 35) if ctx.quick else (250, 350)
+        nex, nen = (20, 28) if ctx.quick else (250, 350)
         tries = 0
         while sum(1 for c in cases if not is_energy(c["tree"])) < nex and tries < 5000:
             tries += 1
